@@ -1206,3 +1206,160 @@ theorem measSubstCode_eq_admit (c : MCalDef) (m : Measurement) (i : Instruction)
     exact hf e he r hr
 
 end QV.C17
+
+namespace QV.C17
+open QV QV.Ast
+
+/-! ### definitions are stored under their keys, for every kind -/
+
+theorem upsert_keys_mono {K V : Type} [DecidableEq K] (m : List (K × V)) (k : K) (v : V) (k' : K)
+    (h : k' ∈ m.map (·.1)) : k' ∈ (upsert m k v).map (·.1) :=
+  (upsert_keys m k v k').mpr (Or.inr h)
+
+theorem upsert_key_mem {K V : Type} [DecidableEq K] (m : List (K × V)) (k : K) (v : V) :
+    k ∈ (upsert m k v).map (·.1) := (upsert_keys m k v k).mpr (Or.inl rfl)
+
+theorem replace_sigs {α σ : Type} [DecidableEq σ] (sig : α → σ) (cs : List α) (v : α) (s : σ)
+    (h : s ∈ cs.map sig) : s ∈ (C16.replace sig cs v).1.map sig := by
+  unfold C16.replace
+  split
+  · rename_i i hi
+    obtain ⟨c, hc, hs, _⟩ := C16.sigPos_some sig _ cs i hi
+    obtain ⟨a, ha, rfl⟩ := List.mem_map.mp h
+    obtain ⟨j, hj, rfl⟩ := List.getElem_of_mem ha
+    by_cases hij : j = i
+    · subst hij
+      have : cs[j] = c := by
+        have := List.getElem?_eq_getElem hj
+        rw [this] at hc; exact Option.some.inj hc
+      rw [this, hs]
+      exact List.mem_map.mpr ⟨v, by
+        exact List.mem_iff_getElem.mpr ⟨j, by simpa using hj, by simp⟩, rfl⟩
+    · exact List.mem_map.mpr ⟨cs[j], by
+        exact List.mem_iff_getElem.mpr ⟨j, by simpa using hj, by simp [List.getElem_set, Ne.symm hij]⟩, rfl⟩
+  · simp only [List.map_append, List.mem_append]
+    exact Or.inl h
+
+theorem replace_sig_mem {α σ : Type} [DecidableEq σ] (sig : α → σ) (cs : List α) (v : α) :
+    sig v ∈ (C16.replace sig cs v).1.map sig :=
+  List.mem_map.mpr ⟨v, replace_mem sig cs v, rfl⟩
+
+
+theorem keys_subset (p q : Prog)
+    (h1 : ∀ s ∈ p.cals.cals.map (·.identifier), s ∈ q.cals.cals.map (·.identifier))
+    (h2 : ∀ s ∈ p.cals.mcals.map (·.identifier), s ∈ q.cals.mcals.map (·.identifier))
+    (h3 : ∀ a ∈ p.circuits.map (·.1), a ∈ q.circuits.map (·.1))
+    (h4 : ∀ a ∈ p.frames.map (·.1), a ∈ q.frames.map (·.1))
+    (h5 : ∀ a ∈ p.memoryRegions.map (·.1), a ∈ q.memoryRegions.map (·.1))
+    (h6 : ∀ a ∈ p.gateDefinitions.map (·.1), a ∈ q.gateDefinitions.map (·.1))
+    (h7 : ∀ a ∈ p.waveforms.map (·.1), a ∈ q.waveforms.map (·.1))
+    (h8 : ∀ a ∈ p.externs.map (·.1), a ∈ q.externs.map (·.1)) :
+    ∀ k ∈ p.keys, k ∈ q.keys := by
+  intro k hk
+  simp only [Prog.keys, List.mem_append, List.mem_map] at hk ⊢
+  rcases hk with ((((((⟨c, hc, rfl⟩ | ⟨c, hc, rfl⟩) | ⟨a, ha, rfl⟩) | ⟨a, ha, rfl⟩) | ⟨a, ha, rfl⟩) |
+    ⟨a, ha, rfl⟩) | ⟨a, ha, rfl⟩) | ⟨a, ha, rfl⟩
+  · obtain ⟨c', hc', he⟩ := List.mem_map.mp (h1 _ (List.mem_map.mpr ⟨c, hc, rfl⟩))
+    exact Or.inl (Or.inl (Or.inl (Or.inl (Or.inl (Or.inl (Or.inl ⟨c', hc', by rw [he]⟩))))))
+  · obtain ⟨c', hc', he⟩ := List.mem_map.mp (h2 _ (List.mem_map.mpr ⟨c, hc, rfl⟩))
+    exact Or.inl (Or.inl (Or.inl (Or.inl (Or.inl (Or.inl (Or.inr ⟨c', hc', by rw [he]⟩))))))
+  · obtain ⟨b, hb, he⟩ := List.mem_map.mp (h3 _ (List.mem_map.mpr ⟨a, ha, rfl⟩))
+    exact Or.inl (Or.inl (Or.inl (Or.inl (Or.inl (Or.inr ⟨b, hb, by rw [he]⟩)))))
+  · obtain ⟨b, hb, he⟩ := List.mem_map.mp (h4 _ (List.mem_map.mpr ⟨a, ha, rfl⟩))
+    exact Or.inl (Or.inl (Or.inl (Or.inl (Or.inr ⟨b, hb, by rw [he]⟩))))
+  · obtain ⟨b, hb, he⟩ := List.mem_map.mp (h5 _ (List.mem_map.mpr ⟨a, ha, rfl⟩))
+    exact Or.inl (Or.inl (Or.inl (Or.inr ⟨b, hb, by rw [he]⟩)))
+  · obtain ⟨b, hb, he⟩ := List.mem_map.mp (h6 _ (List.mem_map.mpr ⟨a, ha, rfl⟩))
+    exact Or.inl (Or.inl (Or.inr ⟨b, hb, by rw [he]⟩))
+  · obtain ⟨b, hb, he⟩ := List.mem_map.mp (h7 _ (List.mem_map.mpr ⟨a, ha, rfl⟩))
+    exact Or.inl (Or.inr ⟨b, hb, by rw [he]⟩)
+  · obtain ⟨b, hb, he⟩ := List.mem_map.mp (h8 _ (List.mem_map.mpr ⟨a, ha, rfl⟩))
+    exact Or.inr ⟨b, hb, by rw [he]⟩
+
+/-- `add_instruction` never forgets a key -/
+theorem add_keys_mono (p : Prog) (i : Instruction) : ∀ k ∈ p.keys, k ∈ (p.add i).keys := by
+  have T : ∀ {α : Type} (l : List α), ∀ a ∈ l, a ∈ l := fun _ _ h => h
+  cases i
+  case calibrationDefinition id is =>
+    exact keys_subset _ _ (fun s hs => replace_sigs _ _ _ s hs) (T _) (T _) (T _) (T _) (T _) (T _) (T _)
+  case measureCalibrationDefinition id is =>
+    exact keys_subset _ _ (T _) (fun s hs => replace_sigs _ _ _ s hs) (T _) (T _) (T _) (T _) (T _) (T _)
+  case circuitDefinition n ps qs is =>
+    exact keys_subset _ _ (T _) (T _) (fun a ha => upsert_keys_mono _ _ _ a ha) (T _) (T _) (T _) (T _) (T _)
+  case frameDefinition f =>
+    exact keys_subset _ _ (T _) (T _) (T _) (fun a ha => upsert_keys_mono _ _ _ a ha) (T _) (T _) (T _) (T _)
+  case declaration d =>
+    exact keys_subset _ _ (T _) (T _) (T _) (T _) (fun a ha => upsert_keys_mono _ _ _ a ha) (T _) (T _) (T _)
+  case gateDefinition g =>
+    exact keys_subset _ _ (T _) (T _) (T _) (T _) (T _) (fun a ha => upsert_keys_mono _ _ _ a ha) (T _) (T _)
+  case waveformDefinition w =>
+    exact keys_subset _ _ (T _) (T _) (T _) (T _) (T _) (T _) (fun a ha => upsert_keys_mono _ _ _ a ha) (T _)
+  case pragma pr =>
+    simp only [Prog.add]
+    split
+    · exact keys_subset _ _ (T _) (T _) (T _) (T _) (T _) (T _) (T _) (fun a ha => upsert_keys_mono _ _ _ a ha)
+    · exact keys_subset _ _ (T _) (T _) (T _) (T _) (T _) (T _) (T _) (T _)
+  all_goals exact keys_subset _ _ (T _) (T _) (T _) (T _) (T _) (T _) (T _) (T _)
+
+/-- `add_instruction` stores a definition under its key -/
+theorem add_key_mem (p : Prog) (i : Instruction) (k : DefKey) (h : defKey i = some k) : k ∈ (p.add i).keys := by
+  cases i <;> simp only [defKey] at h <;> try (cases h)
+  case calibrationDefinition id is =>
+    simp only [Prog.add, Prog.keys, List.mem_append, List.mem_map]
+    obtain ⟨c, hc, he⟩ := List.mem_map.mp (replace_sig_mem (fun c : CalDef => c.identifier) p.cals.cals ⟨id, is⟩)
+    exact Or.inl (Or.inl (Or.inl (Or.inl (Or.inl (Or.inl (Or.inl ⟨c, hc, by rw [he]⟩))))))
+  case measureCalibrationDefinition id is =>
+    simp only [Prog.add, Prog.keys, List.mem_append, List.mem_map]
+    obtain ⟨c, hc, he⟩ := List.mem_map.mp (replace_sig_mem (fun c : MCalDef => c.identifier) p.cals.mcals ⟨id, is⟩)
+    exact Or.inl (Or.inl (Or.inl (Or.inl (Or.inl (Or.inl (Or.inr ⟨c, hc, by rw [he]⟩))))))
+  case circuitDefinition n ps qs is =>
+    simp only [Prog.add, Prog.keys, List.mem_append, List.mem_map]
+    obtain ⟨b, hb, he⟩ := List.mem_map.mp (upsert_key_mem p.circuits n (Instruction.circuitDefinition n ps qs is))
+    exact Or.inl (Or.inl (Or.inl (Or.inl (Or.inl (Or.inr ⟨b, hb, by rw [he]⟩)))))
+  case frameDefinition f =>
+    simp only [Prog.add, Prog.keys, List.mem_append, List.mem_map]
+    obtain ⟨b, hb, he⟩ := List.mem_map.mp (upsert_key_mem p.frames f.identifier (Instruction.frameDefinition f))
+    exact Or.inl (Or.inl (Or.inl (Or.inl (Or.inr ⟨b, hb, by rw [he]⟩))))
+  case declaration d =>
+    simp only [Prog.add, Prog.keys, List.mem_append, List.mem_map]
+    obtain ⟨b, hb, he⟩ := List.mem_map.mp (upsert_key_mem p.memoryRegions d.name (Instruction.declaration d))
+    exact Or.inl (Or.inl (Or.inl (Or.inr ⟨b, hb, by rw [he]⟩)))
+  case gateDefinition g =>
+    simp only [Prog.add, Prog.keys, List.mem_append, List.mem_map]
+    obtain ⟨b, hb, he⟩ := List.mem_map.mp (upsert_key_mem p.gateDefinitions g.name (Instruction.gateDefinition g))
+    exact Or.inl (Or.inl (Or.inr ⟨b, hb, by rw [he]⟩))
+  case waveformDefinition w =>
+    simp only [Prog.add, Prog.keys, List.mem_append, List.mem_map]
+    obtain ⟨b, hb, he⟩ := List.mem_map.mp (upsert_key_mem p.waveforms w.name (Instruction.waveformDefinition w))
+    exact Or.inl (Or.inr ⟨b, hb, by rw [he]⟩)
+  case pragma pr =>
+    split at h
+    · rename_i hn
+      cases h
+      simp only [Prog.add, hn, if_true, Prog.keys, List.mem_append, List.mem_map]
+      obtain ⟨b, hb, he⟩ := List.mem_map.mp (upsert_key_mem p.externs (externKey pr) (Instruction.pragma pr))
+      exact Or.inr ⟨b, hb, by rw [he]⟩
+    · cases h
+
+theorem addMany_keys_mono (p : Prog) (is : List Instruction) : ∀ k ∈ p.keys, k ∈ (p.addMany is).keys := by
+  induction is generalizing p with
+  | nil => intro k hk; exact hk
+  | cons i is ih => intro k hk; rw [addMany_cons]; exact ih _ k (add_keys_mono p i k hk)
+
+/-- every definition handed to `add_instructions` is stored under its key (possibly replaced later by another
+definition with the same key) -/
+theorem addMany_key_mem (p : Prog) (is : List Instruction) (i : Instruction) (k : DefKey)
+    (hi : i ∈ is) (hk : defKey i = some k) : k ∈ (p.addMany is).keys := by
+  induction is generalizing p with
+  | nil => cases hi
+  | cons j is ih =>
+    rw [addMany_cons]
+    rcases List.mem_cons.mp hi with rfl | hi
+    · exact addMany_keys_mono _ _ k (add_key_mem p i k hk)
+    · exact ih _ hi
+
+theorem defKey_isSome_iff (i : Instruction) : (defKey i).isSome = isDefinition i := by
+  cases i <;> simp [defKey, isDefinition]
+  split <;> simp_all
+
+end QV.C17
